@@ -189,7 +189,11 @@ def field_values(rng, dt, ln, n):
     if dt == BOOLEAN:
         return [("w", 0), ("w", 1)][:max(2, n)]
     eb, mb = REALS[dt]
-    out = []
+    # special patterns first: -0.0, +0.0, 1.0, -1.0, smallest subnormal, infinities (sign bit / zero handling)
+    special = [1 << (eb + mb), 0, ((1 << (eb - 1)) - 1) << mb, (1 << (eb + mb)) | (((1 << (eb - 1)) - 1) << mb), 1,
+               ((1 << eb) - 1) << mb, (1 << (eb + mb)) | (((1 << eb) - 1) << mb)]
+    rng.shuffle(special)
+    out = [("wf", b) for b in special[:max(1, n // 2)]]
     while len(out) < n:
         b = rng.getrandbits(1 + eb + mb)
         if not math.isnan(bits_to_float(b, eb, mb)):
